@@ -40,3 +40,22 @@ void h_find(void)
   IORA_CANARY("h_find: call returns");
   if (r == IORA_NPOS) { IORA_CANARY("h_find: not found"); } else { IORA_CANARY("h_find: found"); }
 }
+
+#ifdef IORA_SEARCH
+/* SEARCH: same function, exact specification evaluated by explicit loops over a concrete small buffer (bounded; only used to obtain an
+ * input for REPLAY when a proof obligation fails) */
+void h_search(void)
+{
+  uint8_t IN[10]; size_t IN_N = nondet_size_t();
+  IORA_NONDET_BYTES(IN, 10);
+  __CPROVER_assume(IN_N <= 10);
+  IORA_TRUE = 1;
+  iora_sv p = { (const char *)IN, IN_N };
+  bool got = lexicallyRejected(p);
+  bool want = IN_N > 0 && IN[0] == 47;
+  for (size_t i = 0; i < 10; i++) if (i < IN_N && (IN[i] == 0 || IN[i] == 92)) want = 1;
+  for (size_t i = 0; i < 10; i++) if (i + 2 <= IN_N && (i == 0 || IN[i - 1] == 47) && IN[i] == 46 && IN[i + 1] == 46 && (i + 2 == IN_N || IN[i + 2] == 47)) want = 1;
+  __CPROVER_assert(!want || got, "L1-L4 specification says rejected");
+  __CPROVER_assert(!got || want, "L5 rejected only when the specification says so");
+}
+#endif
